@@ -14,12 +14,12 @@ CHECKS = {
  },
  "C03": {
   "text": "Theorems c03_ssh_bound / c03_x509_bound: for every requested duration (any integer ns or none), authentication instant and clock readings, whatever certGenHandler signs has a validity window that does not wrap the unsigned epoch arithmetic, does not start in the future and ends no later than now+requested, now+cap and authenticated+cap; non-positive and over-long requests are refused; Obl_C03 proves the statement with the literal 24 h / 45 d of the property against constants regenerated from the current tree. Correspondence: ~950 real requests (duration table x session ages x ssh/x509/kubernetes x cookie/client-cert; role and refresh endpoints with duration parameters) compared with the model inside Coq, plus the property inequality as a direct oracle.",
-  "note": "Trusted: Coq kernel + vm_compute; time.ParseDuration in front of the model; amd64 float->uint64 semantics for negative values; harness-compiled constants. Cloud-role (AWS) template lifetime is not yet exercised.",
+  "note": "Trusted: Coq kernel + vm_compute; time.ParseDuration in front of the model; amd64 float->uint64 semantics for negative values; harness-compiled constants. Cloud-role (AWS) template lifetime is observed through the real endpoint behind a fake STS (the literal inside makeCertificateTemplate is not regenerated).",
   "technique": "Coq proof over Z (lia) + regenerated constants + differential correspondence",
  },
  "C11": {
-  "text": "Theorems over an octet-level model of the RFC 3779 codec and the membership test: c11_roundtrip/c11_extract_minted (decode(encode b) = b for every prefix 0..32 and every masked address), c11_iff (a minted certificate accepts a peer iff the peer lies in one of its blocks; only IPv4/IPv4-mapped peers ever match), c11_malformed_never_widens (for ANY extension content acceptance is witnessed by a literal <=32-bit IPv4 block containing the peer; the decoder is total), c11_refresh_same_blocks. Correspondence: all prefixes x boundary peers minted through the real role endpoint, VerifyIP/ExtractIPNets/refresh endpoint vs the model evaluated in Coq, client-supplied address headers, ~70 corrupted extensions in role-CA-signed certificates; independent numeric oracle.",
-  "note": "Trusted: Coq kernel + vm_compute; encoding/asn1, crypto/x509, net.ParseIP in front of the model; TLS chain verification by crypto/tls (harness supplies VerifiedChains of really signed certificates). The equivalence of the octet-wise mask comparison with the numeric prefix comparison is checked by the harness oracle, not proved.",
+  "text": "Theorems over an octet-level model of the RFC 3779 codec and the membership test: c11_roundtrip/c11_extract_minted (decode(encode b) = b for every prefix 0..32 and every masked address), c11_iff (a minted certificate accepts a peer iff the peer lies in one of its blocks; only IPv4/IPv4-mapped peers ever match), c11_malformed_never_widens (for ANY extension content acceptance is witnessed by a literal <=32-bit IPv4 block containing the peer; the decoder is total), c11_numeric_prefix (the octet-wise mask comparison of the code equals the numeric comparison of the leading plen bits, all prefixes 0..32, all byte-valued addresses), c11_refresh_same_blocks. Correspondence: all prefixes x boundary peers minted through the real role endpoint, VerifyIP/ExtractIPNets/refresh endpoint vs the model evaluated in Coq, client-supplied address headers, ~70 corrupted extensions in role-CA-signed certificates; independent numeric oracle.",
+  "note": "Trusted: Coq kernel + vm_compute; encoding/asn1, crypto/x509, net.ParseIP in front of the model; TLS chain verification by crypto/tls (harness supplies VerifiedChains of really signed certificates).",
   "technique": "Coq proof (finite prefix sweep lifted over symbolic octets, induction over block lists) + differential correspondence",
  },
  "C10": {
